@@ -90,7 +90,14 @@ contract(
     returns='Dict[Name,Proc]', returns_alias='process_dict', mutates=['process_dict'],
     raises={'RuntimeError': ('iff', "any(process_dict[k].exitcode is not None and "
                                     "process_dict[k].exitcode != 0 for k in process_dict)")},
+    volatile=dict(process_dict=['exitcode']),
+    env_assumes=[
+        "all(implies(process_dict[k].exitcode is not None, "
+        "process_dict[k].exitcode == final_code(process_dict[k].pid)) for k in process_dict)"],
     ensures=[
+        # caller's view (by pid): a process leaves the pool only after ending with exit code 0
+        "all(k in old(process_dict) and result[k].pid == old(process_dict)[k].pid for k in result)",
+        "all(implies(k not in result, final_code(old(process_dict)[k].pid) == 0) for k in old(process_dict))",
         "all(k in old(process_dict) and result[k] == old(process_dict)[k] for k in result)",
         "all(implies(k not in result, old(process_dict)[k].exitcode is not None "
         "and old(process_dict)[k].exitcode == 0) for k in old(process_dict))",
